@@ -30,6 +30,26 @@ type seqReq struct {
 	K   int    `json:"k"`
 	B   int    `json:"b"`
 	I   int    `json:"i"`
+	// Same: dst (with its spare capacity) and src are cut from ONE allocation, dst first, src right behind it, disjoint
+	// Same = 2: dst's CAPACITY runs to the end of the allocation (over src, which sits at the end), but the appended result
+	// stays clear of src: still two different slices as far as the caller is concerned
+	Same int `json:"same"`
+}
+
+// sameAlloc rebuilds dst and src as disjoint slices of one array.
+func sameAlloc(dst, src []byte, layout int) ([]byte, []byte) {
+	if layout == 2 {
+		// [ dst | room for the result (4 bytes per input byte covers every function here) | src ]
+		room := len(dst) + 4*len(src) + 8
+		buf := make([]byte, room+len(src))
+		copy(buf, dst)
+		copy(buf[room:], src)
+		return buf[:len(dst)], buf[room:]
+	}
+	buf := make([]byte, cap(dst)+len(src))
+	copy(buf, dst[:cap(dst)])
+	copy(buf[cap(dst):], src)
+	return buf[:len(dst):cap(dst)], buf[cap(dst):]
 }
 
 type evRevComp struct {
@@ -137,8 +157,12 @@ func collectCanon(seq []byte, k int) (items [][]int, panicked bool) {
 		for range it {
 			break
 		}
+		var kept [][]byte // the yielded slices are kept as they are and looked at only after the pass (slices.Collect does the same)
 		for kmer := range it {
-			items = append(items, ints(kmer)) // ints copies: the yielded slice aliases seq / rc
+			kept = append(kept, kmer)
+		}
+		for _, kmer := range kept {
+			items = append(items, ints(kmer))
 		}
 	})
 	if panicked {
@@ -151,8 +175,11 @@ func seqCall(r seqReq) any {
 	switch r.Op {
 	case "revcomp":
 		dst := mkDst(r.Dst, r.Cap)
-		orig := dst
 		src := unints(r.Src)
+		if r.Same > 0 {
+			dst, src = sameAlloc(dst, src, r.Same)
+		}
+		orig := dst
 		var out []byte
 		p, _ := catch(func() { out = sequtil.ReverseComplement(dst, src) })
 		ev := evRevComp{Op: r.Op, Dst: nn(r.Dst), Cap: r.Cap, Src: nn(r.Src), Panic: p,
@@ -199,8 +226,11 @@ func seqCall(r seqReq) any {
 		return evCanonPair{Op: r.Op, Seq: nn(r.Seq), K: r.K, Panic: p, Items: items, RcItems: rcitems}
 	case "to2bit":
 		dst := mkDst(r.Dst, r.Cap)
-		orig := dst
 		src := unints(r.Src)
+		if r.Same > 0 {
+			dst, src = sameAlloc(dst, src, r.Same)
+		}
+		orig := dst
 		var out []byte
 		p, _ := catch(func() { out = sequtil.DNATo2Bit(dst, src) })
 		ev := evTo2Bit{Op: r.Op, Dst: nn(r.Dst), Cap: r.Cap, Src: nn(r.Src), Panic: p,
@@ -370,6 +400,13 @@ func seqDrive(args []string) error {
 			do(withDst("revcomp", s, r.Intn(len(dstVars))))
 			do(seqReq{Op: "revcompstr", Src: s})
 		}
+		// dst and src cut from one allocation (disjoint): every string up to length 3, three dst shapes
+		for _, s := range allStrings([]int{'a', 'C', 'g', 'T', 'n'}, 3) {
+			for _, d := range []dstVar{{nil, 0}, {nil, 8}, {[]int{'x', 'y'}, 5}} {
+				do(seqReq{Op: "revcomp", Dst: d.content, Cap: d.spare, Src: s, Same: 1})
+				do(seqReq{Op: "revcomp", Dst: d.content, Cap: d.spare, Src: s, Same: 2})
+			}
+		}
 		// strings are byte strings: every well-formed 2-byte UTF-8 sequence (and a sample of 3-byte ones) between legal
 		// bases - a character is not a base, whatever its code point's low byte is
 		for b1 := 0xC2; b1 <= 0xDF; b1++ {
@@ -486,6 +523,21 @@ func seqDrive(args []string) error {
 				v++
 			}
 		}
+		// dst and src cut from one allocation (disjoint)
+		for _, s := range allStrings([]int{'a', 'C', 'g', 'T'}, 4) {
+			do(seqReq{Op: "to2bit", Dst: nil, Cap: 4, Src: s, Same: 1})
+			do(seqReq{Op: "to2bit", Dst: []int{7, 9}, Cap: 1, Src: s, Same: 2})
+		}
+		// many invalid bytes: counts at which a narrow counter wraps (256, 65536)
+		for _, cnt := range []int{255, 256, 257, 65535, 65536, 65537} {
+			s := make([]int, cnt+8)
+			for j := range s {
+				s[j] = 'N'
+			}
+			copy(s, []int{'A', 'C', 'G', 'T'})
+			copy(s[len(s)-4:], []int{'a', 'c', 'g', 't'})
+			do(withDst("to2bit", s, cnt%len(dstVars)))
+		}
 		// random long: every length mod 4, both cases; packed strings of random bytes
 		for i := 0; i < nrand; i++ {
 			ln := 1 + r.Intn(long)
@@ -504,6 +556,23 @@ func seqDrive(args []string) error {
 			}
 			do(withDst("from2bit", p, r.Intn(len(dstVars))))
 		}
+	case "huge":
+		// thorough tier: inputs beyond 2^20 elements (block sizes, counters, pre-sizing paths of "optimised" code)
+		r := newRand(12009)
+		n := 1<<20 + 37
+		big := randOver(r, []byte("ACGTacgtNn"), n)
+		do(seqReq{Op: "revcomp", Dst: []int{'x', 'y', 'z'}, Cap: 0, Src: big})
+		do(seqReq{Op: "canon", Seq: big, K: 2})
+		dna := randOver(r, []byte(lettersDNA), n)
+		do(seqReq{Op: "to2bit", Dst: []int{1, 2, 3}, Cap: 2, Src: dna})
+		bad := append([]int{}, dna...)
+		bad[0] = 'N'
+		do(seqReq{Op: "to2bit", Dst: nil, Cap: 0, Src: bad})
+		packed := make([]int, 1<<18+3)
+		for j := range packed {
+			packed[j] = r.Intn(256)
+		}
+		do(seqReq{Op: "from2bit", Dst: []int{'q'}, Cap: 0, Src: packed})
 	default:
 		return fmt.Errorf("unknown family %q", family)
 	}
@@ -536,4 +605,21 @@ func seqExec(args []string) error {
 		tw.emit(seqCall(r))
 	}
 	return tw.close()
+}
+
+// allStrings: every string over alpha up to maxLen (including the empty one).
+func allStrings(alpha []int, maxLen int) [][]int {
+	out := [][]int{{}}
+	frontier := [][]int{{}}
+	for n := 1; n <= maxLen; n++ {
+		var next [][]int
+		for _, p := range frontier {
+			for _, x := range alpha {
+				next = append(next, append(append([]int{}, p...), x))
+			}
+		}
+		out = append(out, next...)
+		frontier = next
+	}
+	return out
 }
